@@ -25,9 +25,10 @@ MC = {
                               INVS='TypeOK C06_Recovered NoFatal'),
                          dict(MaxOps=4, MaxRestarts=1, WithCrash='TRUE', FileMax=2, SplitCap=2, Vals='{1, 3}', Revs='{0}', Mutants="{}",
                               INVS='TypeOK C06_Recovered NoFatal')]},
-    'C07': {'quick': [dict(MaxOps=4, MaxRestarts=1, WithCrash='TRUE', WithGC='TRUE', FileMax=2, Vals='{1}', Revs='{0}',
-                           Mutants='{}', INVS='TypeOK C07_Recovered NoFatal')],
-            'thorough': [dict(MaxOps=5, MaxRestarts=1, WithCrash='TRUE', WithGC='TRUE', FileMax=2, Vals='{1}', Revs='{0}',
+    # a pass needs at least 5 operations (3 writes to rotate, flush of the head, gc): MaxOps=4 never reached one
+    'C07': {'quick': [dict(MaxOps=5, MaxRestarts=1, WithCrash='TRUE', WithGC='TRUE', FileMax=2, Vals='{1}', Revs='{0}',
+                           Mutants='{}', INVS='TypeOK C07_Recovered NoFatal', MaxChunk=3)],
+            'thorough': [dict(MaxOps=6, MaxRestarts=1, WithCrash='TRUE', WithGC='TRUE', FileMax=2, Vals='{1}', Revs='{0}',
                               Mutants='{}', INVS='TypeOK C07_Recovered NoFatal', MaxChunk=3)]},
 }
 
@@ -79,6 +80,38 @@ def crash_gc_templates():
     return out
 
 
+def crash_gc_cascade_templates():
+    """ranges of three files starting with an in-place rewrite whose destination fills up and CASCADES onto the second
+    file of the range while that file is being read (second in-place rewrite), with a record of the second file that is
+    superseded in the third: a stale tail left behind the write head of the second file would win the (chunk, offset)
+    order after a kill."""
+    out = []
+    n = 0
+    for dead0 in (1, 2):
+        for sup in ('x', 'f', 'd'):
+            for live2 in (0, 1):
+                for rng_ in ((0, 2), (0, -1)):
+                    v = [0]
+
+                    def st(k):
+                        v[0] += 1
+                        return {'op': 'set', 'k': k, 'v': v[0] % 7 + 1, 'nblk': 1}
+                    ops = []
+                    f0 = ['a', 'b', 'c', 'a'] if dead0 == 1 else ['a', 'b', 'a', 'b']
+                    ops += [st(k) for k in f0]                       # file 0: 4 records, dead0 of them superseded
+                    ops += [st(k) for k in ('d', 'e', 'f', 'x')]     # file 1: all live for now
+                    ops += [st(k) for k in (sup, 'y', 'z', 'w')]     # file 2: supersedes one record of file 1
+                    head = ['y', 'z', 'w'][:3 - live2]
+                    ops += [st(k) for k in head]                     # head: supersedes most of file 2
+                    ops += [{'op': 'flush'}, {'op': 'gc', 'begin': rng_[0], 'end': rng_[1], 'merge': False}, {'op': 'close'}]
+                    out.append({'id': 'cgc-%03d' % n, 'family': 'crash',
+                                'conf': {'filemax_blk': 4, 'splitcap': 100, 'bodymax_blk': 1, 'rotflush': 'auto', 'crash': True,
+                                         'maxtorn': 2, 'buckets': 16, 'bucket': 15, 'height': 3, 'micro': False},
+                                'ops': ops})
+                    n += 1
+    return out
+
+
 def run(pid, tier, seed, work, log, replay=None):
     t0 = time.time()
     res = {'violations': [], 'known': [], 'drift': [], 'lead': [], 'coverage': {}}
@@ -106,6 +139,8 @@ def run(pid, tier, seed, work, log, replay=None):
         if pid == 'C07':
             tpl = crash_gc_templates()
             scen += tpl if tier == 'thorough' else rng.sample(tpl, 12)
+            tpl2 = crash_gc_cascade_templates()
+            scen += tpl2 if tier == 'thorough' else rng.sample(tpl2, 6)
         fixed = os.path.join(V.VERIF, 'scenarios', 'fixed', pid)
         if os.path.isdir(fixed):
             for f in sorted(os.listdir(fixed)):
